@@ -445,8 +445,20 @@ func instantiate(h *Term, sks []*Term, limit int, withPatterns bool) []*Term {
 			combos := []map[string]*Term{{}}
 			for _, b := range t.Bound {
 				var next []map[string]*Term
+				// prefer skolems that stem from a variable of the same name (same clause in another state)
+				cands := sks
+				var named []*Term
+				bn := baseVarName(b.Op)
+				for _, s := range sks {
+					if strings.HasPrefix(strings.Trim(s.Op, "|"), "sk!") && baseVarName(strings.TrimPrefix(strings.Trim(s.Op, "|"), "sk!")) == bn && sameSort(s.S, b.S) {
+						named = append(named, s)
+					}
+				}
+				if len(named) > 0 && !withPatterns {
+					cands = named // int mode only: E-matching finds the other instances
+				}
 				for _, c := range combos {
-					for _, s := range sks {
+					for _, s := range cands {
 						if !sameSort(s.S, b.S) {
 							continue
 						}
@@ -605,4 +617,13 @@ func (vc *VC) oblQuery(o *Obl) string {
 	}
 	fmt.Fprintf(&sb, "(assert (not %s))\n", goal.String())
 	return sb.String()
+}
+
+// baseVarName strips the uniquifying suffixes of bound-variable / skolem names: "x2!q3!17" -> "x2".
+func baseVarName(n string) string {
+	n = strings.Trim(n, "|")
+	if i := strings.Index(n, "!"); i >= 0 {
+		return n[:i]
+	}
+	return n
 }
